@@ -16,12 +16,10 @@ from . import genmod
 
 # shape -> (finding id or None, what happens on the unchanged tree)
 SHAPES = {
-    "clean":     (None,   "INTEGER ids, >= 2 objects per '|'-group, tagged open type after the identifier, mandatory"),
+    "clean":     (None,   "INTEGER ids, >= 2 objects per '|'-group, open type (tagged or not) after the identifier, mandatory, OPTIONAL or extension addition"),
     "oid":       ("F100", "OBJECT IDENTIFIER ids: asn1c prints FATAL, exits 0, emits { \"not supported\", 0 } cells: nothing resolves"),
     "singleton": ("F101", "a comma-separated item with a single object is dropped from the table"),
-    "untagged":  ("F102", "open type member without a tag (no AUTOMATIC TAGS): BER decoder rejects every encoding"),
     "id_after":  ("F103", "identifier member declared after the open type: selector reads the zeroed field"),
-    "optional":  ("F22",  "OPTIONAL open type member: NULL + offset / assertion abort in the decoders"),
     "dup_type":  ("F104", "two rows with the same &Type: asn1c exits 0, emitted C has duplicate enumerators"),
     "builtin":   ("F27",  "built-in type directly in &Type: asn1c exits 0, emitted table does not compile"),
     "one_row_type_first": ("F107", "one-row table with &Type declared before &id: asn1c FATAL 'Can not find referenced object class column' (operator precedence in the column search loop)"),
@@ -42,13 +40,12 @@ class IocGen:
         # safe_rows: only row types whose descriptor has size-led `specifics` (outside the F105 region)
         self.safe_rows = safe_rows
 
-    def gen_module(self, name, shape="clean", nrows=None):
+    def gen_module(self, name, shape="clean", nrows=None, open_opt=None, untagged=None, open_ext=None):
         r = self.r
         assert shape in SHAPES
         tagdefault = "AUTOMATIC"
         manual_tags = False
-        if shape == "untagged": tagdefault = r.choice([None, "IMPLICIT", "EXPLICIT"])
-        elif shape == "clean" and r.random() < 0.3:
+        if shape == "clean" and (r.random() < 0.3 or untagged):
             tagdefault = r.choice([None, "IMPLICIT", "EXPLICIT"]); manual_tags = True
         g = genmod.Gen(r, tagdefault="AUTOMATIC", kinds=ROW_KINDS, max_depth=self.max_depth, allow_default=True,
                        avoid=genmod.Avoid(semi_constrained_nonzero_lb=True))
@@ -115,8 +112,10 @@ class IocGen:
                 if r.random() < 0.2 and nrows >= 2: items[0][1] = idx + [idx[0]]      # a repeated object is ignored
                 if ext: items.append(["e"])
         # frame
-        frame = {"id_first": shape != "id_after", "open_tag": None, "open_opt": shape == "optional", "extras": [], "seq_ext": False, "tags": {}}
+        frame = {"id_first": shape != "id_after", "open_tag": None, "open_opt": False, "extras": [], "seq_ext": False, "tags": {}}
         if shape == "clean":
+            # OPTIONAL open type member (a pointer member; F22 repaired): forced by the caller or one module in four
+            frame["open_opt"] = (r.random() < 0.25) if open_opt is None else bool(open_opt)
             frame["seq_ext"] = r.random() < 0.25
             ek = ["BOOLEAN", "INTEGER", "OCTET STRING", "IA5String", "NULL"]
             for pos in ("pre", "mid", "post"):
@@ -124,9 +123,22 @@ class IocGen:
                     et = {"k": r.choice(ek)}
                     if et["k"] == "INTEGER": et["cons"] = r.choice([None, genmod.cons(0, 7), genmod.cons(0, 255), genmod.cons(-5, 300)])
                     frame["extras"].append({"pos": pos, "id": "x" + pos, "type": et, "opt": "OPTIONAL" if r.random() < 0.4 else None})
-        if tagdefault != "AUTOMATIC" and shape != "untagged":
+        if tagdefault != "AUTOMATIC":
             frame["manual"] = True      # every member gets its own context tag; the open type's is (necessarily) EXPLICIT
-            frame["open_tag"] = r.choice(["", "EXPLICIT "])
+            # None: the open type member carries no tag (the usual X.681 style; F102 repaired): it takes the row's own tag,
+            # so - as for ANY - it is mandatory and no OPTIONAL member stands before it (X.680: distinct tags required)
+            frame["open_tag"] = r.choice(["", "EXPLICIT ", None, None]) if untagged is None else (None if untagged else "")
+            if frame["open_tag"] is None and open_ext:
+                frame["open_tag"] = ""
+            if frame["open_tag"] is None:
+                frame["open_opt"] = False
+                for e in frame["extras"]:
+                    if e["pos"] in ("pre", "mid"): e["opt"] = None
+        if shape == "clean" and not (frame.get("manual") and frame["open_tag"] is None) and ((r.random() < 0.12) if open_ext is None else open_ext):
+            # the open type member as an extension addition: `{ ident, ..., value }` (a pointer member like OPTIONAL ones;
+            # BER / XER decode it since the repair of F22, UPER cannot: F109)
+            frame["open_ext"] = True; frame["open_opt"] = True; frame["seq_ext"] = False
+            frame["extras"] = [e for e in frame["extras"] if e["pos"] != "post"]
         return {"name": name, "tagdefault": tagdefault, "types": types,
                 "ioc": {"shape": shape, "finding": SHAPES[shape][0], "cls_order": "id" if (nrows == 1 or shape == "singleton") else r.choice(["id", "id", "type"]), "idkind": idkind,
                         "rows": rows, "items": items, "frame": frame}} if shape != "one_row_type_first" else \
@@ -199,8 +211,9 @@ def module_text(m):
         tag = f"[{n}] " if f.get("manual") else ""
         if k == "ident": membs.append(f"ident {tag}FRAME-CLS.&id ({{Frames}})")
         elif k == "value":
-            if f.get("manual"): tag = f"[{n}] {f['open_tag']}"
-            membs.append(f"value {tag}FRAME-CLS.&Type ({{Frames}}{{@ident}})" + (" OPTIONAL" if f["open_opt"] else ""))
+            if f.get("manual"): tag = f"[{n}] {f['open_tag']}" if f["open_tag"] is not None else ""
+            if f.get("open_ext"): membs.append("...")
+            membs.append(f"value {tag}FRAME-CLS.&Type ({{Frames}}{{@ident}})" + (" OPTIONAL" if f["open_opt"] and not f.get("open_ext") else ""))
         else:
             membs.append(f"{v['id']} {tag}{genmod.type_text(v['type'])}" + (" OPTIONAL" if v["opt"] else ""))
         n += 1
